@@ -75,5 +75,26 @@ pub fn c06_native_population_evaluator() {
         eprintln!("COUNTEREXAMPLE missing evaluator: result ok={} calls={}", r.is_ok(), problem.calls.load(Ordering::SeqCst));
         panic!("a missing evaluator must be an error before anything executes");
     }
+    // the REQUESTED identifier decides: (registered, requested) over {Global, A} -- the run succeeds and evaluates exactly when they agree
+    for (reg_a, req_a) in [(false, false), (false, true), (true, false), (true, true)] {
+        let problem = Counting { calls: AtomicUsize::new(0) };
+        let mut state: State<Counting> = State::new();
+        state.insert(Populations::<Counting>::new());
+        state.populations_mut().push(vec![Individual::new_unevaluated(1), Individual::new_unevaluated(2)]);
+        if reg_a { state.insert_evaluator_as::<crate::identifier::A>(Sequential::<Counting>::new()); } else { state.insert_evaluator(Sequential::<Counting>::new()); }
+        let seen = std::sync::Arc::new(AtomicUsize::new(0));
+        let seen2 = seen.clone();
+        let b = Configuration::<Counting>::builder().debug(move |_, _| { seen2.fetch_add(1, Ordering::SeqCst); });
+        let cfg = if req_a { b.evaluate_with::<crate::identifier::A>() } else { b.evaluate() }.build();
+        let r = cfg.run(&problem, &mut state);
+        let (calls, executed) = (problem.calls.load(Ordering::SeqCst), seen.load(Ordering::SeqCst));
+        let ok = if reg_a == req_a { r.is_ok() && calls == 2 && executed == 1 && state.evaluations() == 2 } else { r.is_err() && calls == 0 && executed == 0 };
+        if !ok {
+            eprintln!("COUNTEREXAMPLE evaluator registered under {} and requested under {}: result ok={} objective calls={calls} components executed before={executed}",
+                      if reg_a { "A" } else { "Global" }, if req_a { "A" } else { "Global" }, r.is_ok());
+            panic!("the evaluator with the REQUESTED identifier must be required before anything executes");
+        }
+        cases += 1;
+    }
     println!("c06_native_population_evaluator: {} cases checked", cases);
 }
